@@ -80,6 +80,11 @@ class GenericSystemRegistry(
             "system", None
         )
 
+    def _build_cache(self, loaded_files=None) -> None:
+        super()._build_cache(loaded_files)
+        # computed from the definitions as well
+        self._base_units_cache = {}
+
     def _register_definition_adders(self) -> None:
         super()._register_definition_adders()
         self._register_adder(SystemDefinition, self._add_system)
